@@ -161,6 +161,33 @@ pub broadcast axiom fn axiom_duration_ord(a: std::time::Duration, b: std::time::
 pub assume_specification<T: Clone>[ <[T]>::to_vec ](s: &[T]) -> (r: Vec<T>)
     ensures r@ == s@;
 
+#[verifier::external_type_specification]
+#[verifier::external_body]
+pub struct ExParseIntError(core::num::ParseIntError);
+
+#[verifier::external_trait_specification]
+pub trait ExFromStr: Sized {
+    type ExternalTraitSpecificationFor: core::str::FromStr;
+    type Err;
+    fn from_str(s: &str) -> Result<Self, Self::Err>;
+}
+
+/// ASSUMPTION: a `str` value is determined by its characters (Verus compares `&str` patterns by value, not by view)
+pub axiom fn axiom_str_ext(a: &str, b: &str)
+    ensures a@ == b@ ==> a == b;
+
+/// lower-casing of a string (uninterpreted except for the axioms about the four option names, see packet.contract)
+pub uninterp spec fn str_lower(s: Seq<char>) -> Seq<char>;
+pub assume_specification[ str::to_lowercase ](s: &str) -> (r: String)
+    ensures r@ == str_lower(s@);
+
+/// what `s.parse::<F>()` yields (`None` = error); uninterpreted
+pub uninterp spec fn parse_spec<F>(s: Seq<char>) -> Option<F>;
+pub assume_specification<F: core::str::FromStr>[ str::parse::<F> ](s: &str) -> (r: Result<F, <F as core::str::FromStr>::Err>)
+    ensures
+        r is Ok <==> parse_spec::<F>(s@) is Some,
+        r is Ok ==> Some(r->Ok_0) == parse_spec::<F>(s@);
+
 /// ASSUMPTION: printing does not panic (it can, on a closed stdout; not modelled)
 pub assume_specification[ std::io::_print ](_0: core::fmt::Arguments<'_>);
 pub assume_specification[ std::io::_eprint ](_0: core::fmt::Arguments<'_>);
@@ -206,6 +233,48 @@ pub assume_specification<'a, T, A: core::alloc::Allocator>[ <&'a VecDeque<T, A> 
 // =============================================================================================
 
 // ---- packets and traces -----------------------------------------------------------------------
+
+/// UTF-8 decoding of a byte string (uninterpreted; `None` = invalid UTF-8) and encoding of a string
+pub uninterp spec fn utf8_decode(b: Seq<u8>) -> Option<Seq<char>>;
+pub uninterp spec fn utf8_encode(s: Seq<char>) -> Seq<u8>;
+
+/// RFC 2348/2349/7440 option names
+pub open spec fn option_name(o: OptionType) -> Seq<char> {
+    match o {
+        OptionType::BlockSize => "blksize"@,
+        OptionType::TransferSize => "tsize"@,
+        OptionType::Timeout => "timeout"@,
+        OptionType::Windowsize => "windowsize"@,
+    }
+}
+pub open spec fn option_of_name(s: Seq<char>) -> Result<OptionType, &'static str> {
+    if s == "blksize"@ { Ok(OptionType::BlockSize) }
+    else if s == "tsize"@ { Ok(OptionType::TransferSize) }
+    else if s == "timeout"@ { Ok(OptionType::Timeout) }
+    else if s == "windowsize"@ { Ok(OptionType::Windowsize) }
+    else { Err("Invalid option type") }
+}
+
+/// what an `Ok((s, i))` of `Convert::to_string(buf, start)` means: i is the first NUL at or after start,
+/// and s is the UTF-8 decoding of the bytes in between
+pub open spec fn to_string_ok(buf: Seq<u8>, start: int, s: Seq<char>, i: int) -> bool {
+    &&& start <= i < buf.len()
+    &&& buf[i] == 0
+    &&& forall|j: int| start <= j < i ==> buf[j] != 0
+    &&& utf8_decode(buf.subrange(start, i)) == Some(s)
+}
+
+/// RFC 1350 opcode numbers
+pub open spec fn opcode_num(o: Opcode) -> u16 {
+    match o { Opcode::Rrq => 1, Opcode::Wrq => 2, Opcode::Data => 3, Opcode::Ack => 4, Opcode::Error => 5, Opcode::Oack => 6 }
+}
+/// RFC 1350 error codes
+pub open spec fn errcode_num(c: ErrorCode) -> u16 {
+    match c {
+        ErrorCode::NotDefined => 0, ErrorCode::FileNotFound => 1, ErrorCode::AccessViolation => 2, ErrorCode::DiskFull => 3,
+        ErrorCode::IllegalOperation => 4, ErrorCode::UnknownId => 5, ErrorCode::FileExists => 6, ErrorCode::NoSuchUser => 7,
+    }
+}
 
 /// mathematical view of a `Packet` (Vec / String replaced by sequences)
 pub enum PktV {
